@@ -13,24 +13,28 @@ From GV Require Import Sched Events RcuModel RcuBase RcuListProofs RcuLogProofs 
 Theorem rcu_ledger_ok : forall progs s, R false progs s -> fault (gl s) = false.
 Proof. exact no_fault. Qed.
 
-(* Exactly once, as far as it has happened: in every reachable state each cell ever allocated has been
-   constructed at most once, destroyed at most once and only after construction, deallocated at most
-   once and only after destruction; a deallocated cell was constructed, destroyed and deallocated
-   exactly once. *)
+(* Exactly once, as far as it has happened: in every reachable state - for every program, including
+   pushes whose element constructor throws (a negative payload: RcuModel.throws) - each cell ever
+   allocated has been constructed at most once, destroyed at most once and only after construction,
+   deallocated at most once and only when construction and destruction balance.  A deallocated cell was
+   constructed and destroyed exactly once - unless it is the storage of a push whose constructor threw
+   (raw: never constructed, never destroyed, deallocated by the catch block). *)
 Theorem rcu_at_most_once : forall progs s k c, R false progs s -> getc (gl s) k = Some c ->
-  fault (gl s) = false /\ (nct c <= 1 /\ ndt c <= nct c /\ nfr c <= ndt c /\
-  (cs c = Freed -> nct c = 1 /\ ndt c = 1 /\ nfr c = 1))%nat.
+  fault (gl s) = false /\ (nct c <= 1 /\ ndt c <= nct c /\ nfr c <= 1 /\ (nfr c = 1 -> ndt c = nct c) /\
+  (cs c = Freed -> nfr c = 1 /\ if israwc c then nct c = 0 /\ ndt c = 0 else nct c = 1 /\ ndt c = 1))%nat.
 Proof. exact ledger_exact. Qed.
 
 (* Exactly once, in the end: when every thread has finished its program and every handle has been
    released ([quiet]), ~rcu_list ([destroy_list], the function whose allocator calls the final lines of
-   the trace print) runs without a fault and leaves every cell that was ever allocated - list nodes,
-   erased nodes still on the log, registration and erase records - deallocated, each constructed
-   exactly once, destroyed exactly once and deallocated exactly once. *)
+   the trace print) runs without a fault and leaves every cell that was ever allocated deallocated
+   exactly once; list nodes, erased nodes still on the log, registration and erase records were
+   constructed exactly once and destroyed exactly once; the storage of a push whose constructor threw
+   was never constructed and never destroyed. *)
 Theorem rcu_exactly_once : forall progs s, R false progs s -> quiet s ->
   let g' := fst (destroy_list (gl s)) in
   fault g' = false /\
-  forall k c, getc g' k = Some c -> (cs c = Freed /\ nct c = 1 /\ ndt c = 1 /\ nfr c = 1)%nat.
+  forall k c, getc g' k = Some c ->
+    (cs c = Freed /\ nfr c = 1 /\ if israwc c then nct c = 0 /\ ndt c = 0 else nct c = 1 /\ ndt c = 1)%nat.
 Proof. exact exactly_once. Qed.
 
 (* A release destroys a list node only if the node has a log record made by erase: the node is marked
@@ -55,3 +59,13 @@ Proof. exact fixed_same_run_ok. Qed.
 (* non-vacuity of [quiet]: the corpus reproducer run to its end *)
 Example ex_quiet : quiet (run glob loc tstep (init false unfixed_progs) unfixed_sched).
 Proof. vm_compute. split; [reflexivity|]. intros l [<-|[]]. reflexivity. Qed.
+
+(* non-vacuity for the exception path: the second push's constructor throws; at the end (quiet) the raw
+   storage (cell 2) has been deallocated once without ever being constructed or destroyed, the list
+   holds the first element only, nothing faulted *)
+Definition throw_progs : list (list op) := [[LockWrite; PushBack 10; PushBack (-20); Release]].
+Definition throw_state := run glob loc tstep (init false throw_progs) (repeat (0%nat, 0%nat) 60).
+Example ex_throwing_push :
+  quiet throw_state /\ fault (gl throw_state) = false /\ lst (gl throw_state) = [1%nat] /\
+  option_map (fun c => (cs c, israwc c, nct c, ndt c, nfr c)) (getc (gl throw_state) 2) = Some (Freed, true, 0, 0, 1)%nat.
+Proof. vm_compute. split; [split; [reflexivity|]; intros l [<-|[]]; reflexivity|auto]. Qed.
